@@ -18,6 +18,8 @@ SETS = {
     "in/out": ([("In", "Out"), ("in", "out"), ("true", "false")], []),
     "x/y": ([("X", "Y"), ("x", "y"), ("width", "height"), ("Width", "Height"), ("w", "h")], []),
     "x/y+dims": ([("X", "Y"), ("x", "y"), ("XDIM", "YDIM"), ("XL_EDGE", "YL_EDGE"), ("XH_EDGE", "YH_EDGE"), ("Avoid::XDIM", "Avoid::YDIM")], []),
+    "scan fwd/rev": ([("XL_CONN", "XH_CONN"), ("XL_EDGE", "XH_EDGE"), ("YL_CONN", "YH_CONN"), ("YL_EDGE", "YH_EDGE"), ("begin", "rbegin"),
+                      ("end", "rend"), ("nvert", "rvert"), ("_Rb_tree_const_iterator", "reverse_iterator"), ("_Rb_tree_iterator", "reverse_iterator")], []),
     "src/dst": ([("src", "dst"), ("Src", "Dst")], []),
     "begin/finish": ([("Begin", "Finish"), ("begin", "finish"), ("front", "back")], []),
 }
@@ -27,7 +29,7 @@ PART = re.compile(r"[A-Z]+(?![a-z])|[A-Z]?[a-z0-9]+|_+")
 
 
 def swap_ident(w, table):
-    if w in ("NEGDBLMAX", "POSDBLMAX") or (w in table and len(w) > 1 and w.isupper()):
+    if w in ("NEGDBLMAX", "POSDBLMAX") or (w in table and len(w) > 1 and (w.isupper() or "_" in w or w in ("begin", "rbegin", "end", "rend", "nvert", "rvert"))):
         return table[w]
     if PROT.match(w):
         return w
@@ -72,11 +74,11 @@ def mirror_equal(f, g, set_name):
     return False, (am[max(0, i - 60):i + 60].replace("\n", " "), b[max(0, i - 60):i + 60].replace("\n", " "))
 
 
-def mirror_blocks_equal(a, b, set_name):
+def mirror_blocks_equal(a, b, set_name, abstract_std=False):
     """Two statements of one function (locals kept by name) are mirror images under the swap."""
     from .canon import Canon
-    fa = _norm(str(Canon(ns_map=(), keep_names=True).form(a)))
-    fb = _norm(str(Canon(ns_map=(), keep_names=True).form(b)))
+    fa = _norm(str(Canon(ns_map=(), keep_names=True, abstract_std=abstract_std).form(a)))
+    fb = _norm(str(Canon(ns_map=(), keep_names=True, abstract_std=abstract_std).form(b)))
     am = mirror_form(fa, set_name)
     if am == fb:
         return True, None
